@@ -72,7 +72,7 @@ func stringPattern(rg *rng, n int) []byte {
 	if n == 0 {
 		return b
 	}
-	switch rg.intn(7) {
+	switch rg.intn(8) {
 	case 0: // unterminated, full
 		for i := range b {
 			b[i] = byte('a' + rg.intn(26))
@@ -91,6 +91,17 @@ func stringPattern(rg *rng, n int) []byte {
 		}
 	case 4: // arbitrary bytes
 		copy(b, rg.bytes(n))
+	case 5: // valid UTF-8 of mixed 1/2/3-byte characters filling the field at a random alignment: whatever length
+		// the profile cuts it to, characters end on, just before and across the cut
+		var s []byte
+		for len(s) < n {
+			s = append(s, []string{"a", "Z", "é", "ö", "✓", "日", "ж"}[rg.intn(7)]...)
+		}
+		k := n
+		for k > 0 && k < len(s) && s[k]&0xC0 == 0x80 {
+			k-- // the field itself ends on a character boundary (the rest, if any, is NUL)
+		}
+		copy(b, s[:k])
 	default:
 		k := rg.intn(n)
 		for i := 0; i < k; i++ {
